@@ -3,6 +3,8 @@ package props
 import (
 	"fmt"
 	"regexp"
+
+	"github.com/beevik/etree"
 	"strings"
 	"time"
 
@@ -312,6 +314,15 @@ func c02Run(r *core.Run) {
 			tamper = true
 			r.Fault("tamper_signed_content")
 		}
+		if tamper && (kname == "both-badR" || kname == "response" || kname == "logout-request" || kname == "logout-response") && t.Int(3, "c02.nestsig") == 1 {
+			// the (now broken) root signature sits one level down, inside Extensions: it still
+			// references the root and must still be fatal
+			if nx, ok := nestRootSignature(xml); ok {
+				xml = nx
+				r.Fault("relocate_signature")
+				r.Probe("broken_root_signature_nested")
+			}
+		}
 		// --- reference rule
 		honoured := func(cert *world.Cert, key int, tampered bool) bool {
 			used := cert
@@ -437,4 +448,28 @@ func tamperInstant(xml, id string) (string, bool) {
 	}
 	ntag := tag[:k+1] + "1999-12-31T23:59:59Z" + tag[k+1+e:]
 	return xml[:st] + ntag + xml[en:], true
+}
+
+// nestRootSignature moves the root's Signature child under a new Extensions element.
+func nestRootSignature(xml string) (string, bool) {
+	d := etree.NewDocument()
+	if err := d.ReadFromString(xml); err != nil {
+		return xml, false
+	}
+	root := d.Root()
+	for _, c := range root.ChildElements() {
+		if c.Tag == "Signature" {
+			root.RemoveChild(c)
+			pfx := root.Space
+			if pfx != "" {
+				pfx += ":"
+			}
+			ext := etree.NewElement(pfx + "Extensions")
+			ext.AddChild(c)
+			root.InsertChildAt(1, ext)
+			s, err := d.WriteToString()
+			return s, err == nil
+		}
+	}
+	return xml, false
 }
